@@ -315,6 +315,9 @@ pub fn count_dir(p: &str) -> i64 {
     std::fs::read_dir(p).map(|d| d.count() as i64).unwrap_or(0)
 }
 
+/// where the executor currently is: (history number, op index, inside a build); read by the hang watchdog
+pub static PROGRESS: std::sync::Mutex<(i64, i64, bool)> = std::sync::Mutex::new((-1, -1, false));
+
 pub struct BuildOutcome {
     pub res: Value,
     pub polls: u64,
@@ -628,7 +631,9 @@ pub fn run_history(h: &History, hno: usize, cfg: &RunCfg, out: &mut Vec<Value>) 
                 let o = &o;
                 let fds_before = count_fds();
                 let tmp_before = o.tmpdir.as_ref().map(|t| count_dir(t)).unwrap_or(-1);
+                *PROGRESS.lock().unwrap() = (hno as i64, k as i64, true);
                 let bo = do_build(w, db, idx, m, dim, o, h.max_polls.min(cfg.max_polls));
+                *PROGRESS.lock().unwrap() = (hno as i64, k as i64, false);
                 let fds_after = count_fds();
                 let tmp_after = o.tmpdir.as_ref().map(|t| count_dir(t)).unwrap_or(-1);
                 ev["fd_delta"] = json!(fds_after - fds_before);
